@@ -11,7 +11,7 @@ from hgv.worker import HarnessError
 ID = "C19"
 RULE = ("Overload families of 1-5 candidates with 1-3 parameters are built at run time from a pattern grammar (concrete types, scalar "
         "variables, whole-time-series variables, repeated variables, nested TSD/TSL/TSS/TSB patterns, TSL size variables, REF and SIGNAL "
-        "parameters) with the library's own specificity rank, registered under fresh operator names in 2-4 random orders, and resolved "
+        "parameters, scalar parameters - concrete or a scalar variable shared with the time-series patterns) with the library's own specificity rank, registered under fresh operator names in 2-4 random orders, and resolved "
         "against argument tuples drawn from the same grammar (biased to instances of the candidates). An independent Python unifier "
         "decides which candidates match and with which bindings. Checked: every order gives the same winner or the same error class; "
         "the winner really unifies with one binding per variable and the reported output type is the output pattern under those "
@@ -19,7 +19,8 @@ RULE = ("Overload families of 1-5 candidates with 1-3 parameters are built at ru
         "another matching candidate beats it. A finite sub-domain (all families of <= 3 one-parameter candidates over 15 patterns x 6 "
         "argument types x all registration orders) is enumerated exhaustively in every run. Non-trivial = >= 3 candidates of which >= 2 "
         "match the call and at least one pair is comparable by substitution. Distinct = canonical JSON of the case.")
-ASSUMPTIONS = ["SIGNAL accepts any time-series and REF is transparent on inputs (documented input rule); candidates with such parameters are left out of the specificity order",
+ASSUMPTIONS = ["a parameter position is scalar for every candidate and every call of a family (no scalar-to-time-series promotion is generated); a plain int/bool value matching a concrete numeric scalar parameter by the documented coercion is accepted as a match but left out of the substitution-instance order",
+               "SIGNAL accepts any time-series and REF is transparent on inputs (documented input rule); candidates with such parameters are left out of the specificity order",
                "incomparable candidates are ranked by the library's numeric rank and are only subject to order independence"]
 
 SCALARS = ["int", "bool", "str"]
@@ -36,6 +37,8 @@ def budget_s(tier):
 # ------------------------------------------------------------------------------------------------ schemas / patterns
 def sstr(s):
     k = s[0]
+    if k == "SC":
+        return f"SC[{s[1]}]"     # a scalar argument of that type
     if k == "TS":
         return f"TS[{s[1]}]"
     if k == "TSS":
@@ -70,6 +73,8 @@ def schema(draw, depth=2):
 
 def generalise(draw, s, vars_ts, vars_sc, vars_sz, depth=0):
     """a pattern that matches schema s: each sub-term is kept concrete or replaced by a (possibly shared) variable."""
+    if s[0] == "SC":
+        return ("scalar", ("v", draw(st.sampled_from(vars_sc))) if draw(st.booleans()) else ("c", s[1]))
     r = draw(st.integers(0, 9))
     if r == 0 and depth > 0 or r == 1:
         return ("var", draw(st.sampled_from(vars_ts)))
@@ -79,6 +84,8 @@ def generalise(draw, s, vars_ts, vars_sc, vars_sz, depth=0):
 
     def sp(t):
         return ("v", draw(st.sampled_from(vars_sc))) if draw(st.booleans()) else ("c", t)
+    if k == "SC":
+        return ("scalar", sp(s[1]))
     if k == "TS":
         return ("ts", sp(s[1]))
     if k == "TSS":
@@ -96,6 +103,8 @@ def pat_json(p):
     k = p[0]
     if k == "c":
         return {"k": "c", "s": p[1]}
+    if k == "scalar":
+        return {"k": "scalar", "e": ({"c": p[1][1]} if p[1][0] == "c" else {"v": p[1][1]})}
     if k == "var":
         return {"k": "var", "n": p[1]}
     if k in ("ts", "tss"):
@@ -120,7 +129,7 @@ def pat_vars(p, out=None):
     k = p[0]
     if k == "var":
         out.add(("ts", p[1]))
-    elif k in ("ts", "tss"):
+    elif k in ("ts", "tss", "scalar"):
         if p[1][0] == "v":
             out.add(("sc", p[1][1]))
     elif k == "tsd":
@@ -207,6 +216,17 @@ def unify(p, s, b):
             return b[key] == t
         b[key] = t
         return True
+    if k == "scalar":
+        if s[0] != "SC":
+            return False
+        if p[1][0] == "c" and p[1][1] != s[1] and {p[1][1], s[1]} <= {"int", "bool"}:
+            # documented coercion of a plain value to a concrete numeric scalar parameter (costs one rank step): the
+            # candidate matches, but it takes no part in the substitution-instance order below
+            b[("coerced",)] = True
+            return True
+        return sc(p[1], s[1])
+    if s[0] == "SC":
+        return False
     if k == "ts":
         return s[0] == "TS" and sc(p[1], s[1])
     if k == "tss":
@@ -284,7 +304,7 @@ def instance_of(a, b, m):
             return m[key] == sa
         m[key] = sa
         return True
-    if kb in ("ts", "tss"):
+    if kb in ("ts", "tss", "scalar"):
         return sc(a[1], b[1])
     if kb == "tsd":
         return sc(a[1], b[1]) and instance_of(a[2], b[2], m)
@@ -343,7 +363,7 @@ def shape_key(params):
             return go(from_schema(parse_schema(p[1])))
         if k == "var":
             return ("var", nm("ts", p[1]))
-        if k in ("ts", "tss"):
+        if k in ("ts", "tss", "scalar"):
             return (k, p[1] if p[1][0] == "c" else ("v", nm("sc", p[1][1])))
         if k == "tsd":
             return ("tsd", p[1] if p[1][0] == "c" else ("v", nm("sc", p[1][1])), go(p[2]))
@@ -386,7 +406,7 @@ def canon(p):
     concrete(TS[int]) and ts(concrete(int)) differently although they denote the same type; two spellings of one type are
     not two overloads)"""
     k = p[0]
-    if k in ("c", "var", "signal"):
+    if k in ("c", "var", "signal", "scalar"):
         return p
     if k == "ref":
         return ("ref", canon(p[1]))
@@ -412,15 +432,20 @@ def cand_instance_of(A, B):
 @st.composite
 def case(draw, tier):
     npar = draw(st.integers(1, 3))
-    base_args = [draw(schema(2)) for _ in range(npar)]
+    def arg_like(i=None):
+        # scalar parameters: a position is scalar for every candidate and every call (no scalar-to-time-series lifting is assumed)
+        if i is None:
+            return ("SC", draw(st.sampled_from(SCALARS))) if draw(st.integers(0, 5)) == 0 else draw(schema(2))
+        return ("SC", draw(st.sampled_from(SCALARS))) if base_args[i][0] == "SC" else draw(schema(2))
+    base_args = [arg_like() for _ in range(npar)]
     vars_ts, vars_sc, vars_sz = ["V", "W"], ["T", "U"], ["N", "M"]
     fam = []
     for ci in range(draw(st.integers(1, 5))):
         params = []
         # most candidates generalise the base call (so that several match); some are built from other schemas
-        src = base_args if draw(st.integers(0, 3)) else [draw(schema(2)) for _ in range(npar)]
+        src = base_args if draw(st.integers(0, 3)) else [arg_like(i) for i in range(npar)]
         for s in src:
-            r = draw(st.integers(0, 19))
+            r = draw(st.integers(0, 19)) if s[0] != "SC" else 19
             if r == 0:
                 params.append(("signal",))
             elif r == 1:
@@ -431,7 +456,7 @@ def case(draw, tier):
         for p in params:
             pat_vars(p, pv)
         # output pattern: one of the parameters' patterns (its variables are bound by construction) or a concrete type
-        outs = [p for p in params if not has_special(p)]
+        outs = [p for p in params if not has_special(p) and p[0] != "scalar"]
         out = draw(st.sampled_from(outs)) if outs and draw(st.booleans()) else ("c", "TS[int]")
         fam.append({"label": f"C{ci}", "params": params, "out": out})
     n_orders = draw(st.integers(2, 4))
@@ -440,7 +465,7 @@ def case(draw, tier):
     for _ in range(draw(st.integers(0, 3))):
         c = list(base_args)
         i = draw(st.integers(0, npar - 1))
-        c[i] = draw(schema(2))
+        c[i] = arg_like(i)
         calls.append(c)
     return {"family": fam, "orders": orders, "calls": calls}
 
@@ -488,7 +513,7 @@ def check(case, ctx) -> Result:
                 res.violations.append(Viol("match_rejected", f"call {[sstr(s) for s in call]}: reported 'no matching overload' but {sorted(matches)} unify ({o.get('msg', '')[:300]})", feats))
             if o["err"] == "ambiguous" and len(matches) < 2 and not any(special):
                 res.violations.append(Viol("ambiguity_invented", f"call {[sstr(s) for s in call]}: reported ambiguous but only {sorted(matches)} unify", feats))
-            if o["err"] == "ambiguous" and len(matches) == 2 and not any(special):
+            if o["err"] == "ambiguous" and len(matches) == 2 and not any(special) and not any(("coerced",) in mb for mb in matches.values()):
                 a, b2 = [by_label[m] for m in sorted(matches)]
                 if (cand_instance_of(a, b2) and not cand_instance_of(b2, a)) or (cand_instance_of(b2, a) and not cand_instance_of(a, b2)):
                     res.violations.append(Viol("ambiguous_between_comparable", f"call {[sstr(s) for s in call]}: ambiguous between {a['label']} {a['params']} and {b2['label']} {b2['params']} although one is a proper instance of the other", dict(feats, differ_only_in_tsl_size=differ_only_in_size(a, b2),
@@ -508,7 +533,10 @@ def check(case, ctx) -> Result:
             if exp_out is not None and got_out != exp_out:
                 res.violations.append(Viol("output_type_wrong", f"call {[sstr(s) for s in call]}: winner {win['label']} output pattern {win['out']} under bindings {b} is {exp_out}, reported {got_out}", feats))
             # one binding per variable, as reported
-            for (kind, name), v in b.items():
+            for key_, v in b.items():
+                if key_ == ("coerced",):
+                    continue
+                kind, name = key_
                 rep = {"ts": o.get("ts_vars", {}), "sc": o.get("scalar_vars", {}), "sz": o.get("size_vars", {})}[kind].get(name)
                 expv = sstr(v) if kind == "ts" else v
                 if rep is not None and rep != expv:
@@ -517,6 +545,8 @@ def check(case, ctx) -> Result:
         comparable = False
         for m in matches:
             if m == o["win"] or special[fam.index(by_label[m])] or special[fam.index(win)]:
+                continue
+            if ("coerced",) in matches[m] or ("coerced",) in matches.get(o["win"], {}):
                 continue
             A = by_label[m]
             if cand_instance_of(A, win) and not cand_instance_of(win, A):
